@@ -1,5 +1,6 @@
 // nixsym: interpreter core
 #include "exec.hpp"
+#include <fstream>
 #include <llvm/Support/raw_ostream.h>
 #include <iostream>
 #include <sstream>
@@ -533,18 +534,44 @@ z3::check_result Executor::check(State &s, const z3::expr &extra, unsigned timeo
         bool heavy = isHeavy(extra);
         if (sliced && !heavy) for (size_t i = 0; i < s.pc.size() && !heavy; i++) if (take[i] && isHeavy(s.pc[i])) heavy = true;
         if (!sliced) heavy = true;
-        // one-shot: bit-blast the whole conjunction (z3's incremental core is far slower on FP arithmetic)
-        z3::tactic tac(*ZC, heavy ? "qffpbv" : "smt");
-        z3::solver one = tac.mk_solver();
-        z3::params p(*ZC); p.set("timeout", timeoutMs); one.set(p);
-        for (size_t i = 0; i < s.pc.size(); i++) if (!sliced || take[i]) one.add(s.pc[i]);
-        one.add(extra);
-        z3::check_result r;
-        try { r = one.check(); } catch (z3::exception &e) { r = z3::unknown; }
-        if (r == z3::sat && outModel) *outModel = one.get_model();
+        // one-shot portfolio.  No single z3 strategy is robust on floating point: "qffpbv" decides the arithmetic kernels
+        // (mul/div/round) in a fraction of a second but runs for minutes on some comparison-heavy queries that the plain
+        // bit-blasting pipeline or the SMT core close in 0.1 s, and vice versa.  Strategies are tried in turn with short
+        // budgets first, then with the full budget; the first definite answer wins (they are all sound and complete).
+        z3::check_result r = z3::unknown;
+        z3::model keep(*ZC);
+        struct Try { int strat; unsigned ms; };
+        std::vector<Try> plan;
+        if (heavy) plan = {{0, 1500}, {1, 3000}, {2, 1500}, {0, timeoutMs}, {1, timeoutMs}, {2, timeoutMs}};
+        else plan = {{2, timeoutMs}, {0, timeoutMs}};
+        unsigned spent = 0;
+        for (auto &tr : plan) {
+            if (tr.ms > timeoutMs) tr.ms = timeoutMs;
+            if (spent >= 2 * timeoutMs + 6000) break;
+            z3::tactic tac = tr.strat == 0 ? (z3::tactic(*ZC, "simplify") & z3::tactic(*ZC, "fpa2bv") & z3::tactic(*ZC, "simplify") & z3::tactic(*ZC, "bit-blast") & z3::tactic(*ZC, "sat"))
+                           : tr.strat == 1 ? z3::tactic(*ZC, "qffpbv") : z3::tactic(*ZC, "smt");
+            z3::solver one = tac.mk_solver();
+            z3::params p(*ZC); p.set("timeout", tr.ms); one.set(p);
+            for (size_t i = 0; i < s.pc.size(); i++) if (!sliced || take[i]) one.add(s.pc[i]);
+            one.add(extra);
+            try { r = one.check(); } catch (z3::exception &e) { r = z3::unknown; }
+            spent += tr.ms;
+            if (r == z3::sat && outModel) *outModel = one.get_model();
+            if (r != z3::unknown) { stratWins[tr.strat]++; break; }
+        }
+        if (r == z3::unknown && !opt.dumpDir.empty()) {
+            static int nd = 0; std::ofstream df(opt.dumpDir + "/unknown" + std::to_string(nd++) + ".smt2");
+            z3::solver plain(*ZC); for (size_t i = 0; i < s.pc.size(); i++) if (!sliced || take[i]) plain.add(s.pc[i]); plain.add(extra);
+            df << plain.to_smt2();
+        }
         qTotal++; qHeavy++; if (r == z3::sat) qSat++; else if (r == z3::unsat) qUnsat++; else qUnknown++;
         double dt = std::chrono::duration<double>(std::chrono::steady_clock::now() - t).count();
         solverS += dt; if (dt > slowestQ) slowestQ = dt;
+        if (opt.profile) {
+            std::string where = "?";
+            if (!s.stack.empty()) { auto &fr = s.stack.back(); where = fr.fn->getName().str().substr(0, 60); if (fr.pc != fr.bb->end()) where += " @ " + locOf(&*fr.pc); }
+            auto &pr = profile[where]; pr.first++; pr.second += dt;
+        }
         return r;
     }
     // sync solver stack with path condition
@@ -559,6 +586,19 @@ z3::check_result Executor::check(State &s, const z3::expr &extra, unsigned timeo
     try { r = solver->check(); } catch (z3::exception &e) { r = z3::unknown; }
     if (r == z3::sat && outModel) *outModel = solver->get_model();
     solver->pop();
+    if (r == z3::unknown) {
+        // the incremental core gave up (time-out): retry once with a fresh solver and the bit-blasting strategy
+        qRetry++;
+        bool fp = false;
+        for (auto &c : s.pc) if (c.to_string().find("fp.") != std::string::npos) { fp = true; break; }
+        z3::tactic tac(*ZC, fp ? "qffpbv" : "qfbv");
+        z3::solver one = tac.mk_solver();
+        z3::params p2(*ZC); p2.set("timeout", timeoutMs * 3); one.set(p2);
+        for (auto &c : s.pc) one.add(c);
+        one.add(extra);
+        try { r = one.check(); } catch (z3::exception &e) { r = z3::unknown; }
+        if (r == z3::sat && outModel) *outModel = one.get_model();
+    }
     qTotal++; if (r == z3::sat) qSat++; else if (r == z3::unsat) qUnsat++; else qUnknown++;
     solverS += std::chrono::duration<double>(std::chrono::steady_clock::now() - t).count();
     return r;
